@@ -26,6 +26,11 @@ def run_property(prop: str, tier: str, program: Program, seed: int, quiet: bool 
 
 
 def main(argv=None) -> int:
+    import signal
+    try:
+        signal.signal(signal.SIGPIPE, signal.SIG_DFL)
+    except Exception:
+        pass
     ap = argparse.ArgumentParser(prog="check")
     ap.add_argument("prop", nargs="?")
     ap.add_argument("--tier", default=os.environ.get("VERIF_TIER", "quick"), choices=["quick", "thorough"])
